@@ -308,10 +308,16 @@ impl RecordDataType {
             RecordDataType::Double { min, max } => {
                 (min.map(RecordValue::Double), max.map(RecordValue::Double))
             }
-            RecordDataType::ScaledInteger { min, max, .. } => (
-                Some(RecordValue::ScaledInteger(*min)),
-                Some(RecordValue::ScaledInteger(*max)),
-            ),
+            RecordDataType::ScaledInteger {
+                min, max, scale, ..
+            } => {
+                // With a negative scale the largest raw number stands for the smallest value
+                let (min, max) = if *scale < 0.0 { (max, min) } else { (min, max) };
+                (
+                    Some(RecordValue::ScaledInteger(*min)),
+                    Some(RecordValue::ScaledInteger(*max)),
+                )
+            }
             RecordDataType::Integer { min, max } => (
                 Some(RecordValue::Integer(*min)),
                 Some(RecordValue::Integer(*max)),
